@@ -29,7 +29,8 @@ def gen_vals(rng, P, m, kind):
         elif kind == "zeros":
             xs = sorted((rng.choice([0.0, 0.0, 1.0, 0.3]) for _ in range(m)), reverse=True)
         elif kind == "integer":
-            xs = sorted((float(rng.randint(0, 9)) for _ in range(m)), reverse=True)
+            hi = rng.choice([9, 9, 120])      # 120: column sums beyond what an int8 / uint8 storage type holds
+            xs = sorted((float(rng.randint(0, hi)) for _ in range(m)), reverse=True)
         elif kind == "one_rich":
             xs = sorted((rng.random() * (1000.0 if row is P[0] else 0.01) for _ in range(m)), reverse=True)
         elif kind in ("tiny", "huge"):
